@@ -33,6 +33,11 @@ impl<const W: usize> Window<W> {
     /// Choose a symbolic spec of `log_bits` bits per region and a symbolic window position, and point the
     /// stubbed base so that region `r0`'s field is bit 0 of `buf`.
     pub fn new(buf: &mut [u64; W], log_bits: usize, max_log_region: usize) -> Self {
+        Self::new_at(Address::from_mut_ptr(buf.as_mut_ptr()).as_usize(), log_bits, max_log_region)
+    }
+
+    /// Same, for a buffer of `8 * W` bytes at the 8-byte aligned address `buf_addr`.
+    pub fn new_at(buf_addr: usize, log_bits: usize, max_log_region: usize) -> Self {
         let lbr: usize = kani::any();
         kani::assume(lbr <= max_log_region);
         // a region has at least as many data bits as metadata bits (log_data_meta_ratio >= 0)
@@ -54,7 +59,6 @@ impl<const W: usize> Window<W> {
         kani::assume(r0 <= (usize::MAX >> lbr) - n);
         // ... and their metadata bit index fits in a usize (metadata no larger than the address space)
         kani::assume(r0 <= (usize::MAX >> log_bits) - n);
-        let buf_addr = Address::from_mut_ptr(buf.as_mut_ptr()).as_usize();
         let m0 = (r0 << log_bits) / 8; // metadata byte offset of region r0 (exact: multiple of 8 bytes)
         // the window's metadata offset does not exceed the harness buffer's address (no negative base)
         kani::assume(offset + m0 <= buf_addr);
@@ -112,4 +116,26 @@ pub fn frame4(win: &Window<4>, old: &[u64; 4], new: &[u64; 4], k: usize) -> bool
 
 pub fn same4(a: &[u64; 4], b: &[u64; 4]) -> bool {
     a[0] == b[0] && a[1] == b[1] && a[2] == b[2] && a[3] == b[3]
+}
+
+/// A byte-typed, 8-byte aligned metadata buffer. Bulk operations (memset / memmove through `write_bytes` / `ptr::copy`)
+/// are run on byte arrays: CBMC 6.11 mis-models a byte-granular memset with symbolic offset/length into a `[u64; N]`
+/// object (a spurious counterexample that does not reproduce natively), but models it exactly on `[u8; N]`.
+#[repr(C, align(8))]
+#[derive(Clone, Copy)]
+pub struct Bytes<const N: usize>(pub [u8; N]);
+
+impl<const N: usize> Bytes<N> {
+    pub fn addr(&mut self) -> usize {
+        Address::from_mut_ptr(self.0.as_mut_ptr()).as_usize()
+    }
+    /// little-endian image words `w0..w0+4`
+    pub fn img4(&self, w0: usize) -> [u64; 4] {
+        let b = &self.0;
+        let w = |i: usize| {
+            let o = 8 * (w0 + i);
+            u64::from_le_bytes([b[o], b[o + 1], b[o + 2], b[o + 3], b[o + 4], b[o + 5], b[o + 6], b[o + 7]])
+        };
+        [w(0), w(1), w(2), w(3)]
+    }
 }
